@@ -562,7 +562,9 @@ def get_true_interval_masks(boolean_vector):
     if not boolean_vector.dtype == bool:
         raise ValueError("non-boolean input vector")
     int_vector = boolean_vector.astype(np.int64)
-    is_start = np.concatenate(([0], int_vector[1:] - int_vector[:-1])) > 0
+    is_start = (
+        np.concatenate((int_vector[:1], int_vector[1:] - int_vector[:-1])) > 0
+    )
     # Indices increment for each block of True values in input vector
     indices = np.cumsum(is_start.astype(np.int64))
     indices[~boolean_vector] = 0
